@@ -286,6 +286,36 @@ pub fn apply(w: &mut World, a: &Act) -> Outcome {
     apply_fault(w, a, None)
 }
 
+/// Native collateral with an explicit amount attached (C13: exactly what the cw20 twin pulled).
+pub fn apply_with_funds(w: &mut World, a: &Act, funds: u128) -> Outcome {
+    w.tap.reset(None);
+    let eng = w.engine.clone();
+    match a {
+        Act::Open { t, v, buy, margin, lev, limit } => {
+            let va = vamm_addr(w, *v);
+            let msg = EngineExec::OpenPosition {
+                vamm: va.to_string(),
+                side: World::side(*buy),
+                margin_amount: Uint128::new(*margin),
+                leverage: Uint128::new(*lev),
+                base_asset_limit: Uint128::new(*limit),
+            };
+            w.exec_full(t, &eng, &msg, funds, None)
+        }
+        Act::Close { t, v, limit } => {
+            let va = vamm_addr(w, *v);
+            let msg = EngineExec::ClosePosition { vamm: va.to_string(), quote_asset_limit: Uint128::new(*limit) };
+            w.exec_full(t, &eng, &msg, funds, None)
+        }
+        Act::Dep { t, v, amt } => {
+            let va = vamm_addr(w, *v);
+            let msg = EngineExec::DepositMargin { vamm: va.to_string(), amount: Uint128::new(*amt) };
+            w.exec_full(t, &eng, &msg, funds, None)
+        }
+        _ => apply_fault(w, a, None),
+    }
+}
+
 pub fn apply_fault(w: &mut World, a: &Act, fail_at: Option<u32>) -> Outcome {
     w.tap.reset(None);
     let native = w.token.is_none();
